@@ -264,8 +264,6 @@ theorem C14_holds (env : Env) (cands : List Nat) (s : Screen) (c : Call) (h : In
     apply decide_eq_true
     exact stack_discipline env s h _
 
-theorem dispatch_DECSC : escapeDispatch 55 = [.saveCursor] := by rfl
-theorem dispatch_DECRC : escapeDispatch 56 = [.restoreCursor] := by rfl
 
 /-- non-vacuity: two nested saves are restored in reverse order -/
 example :
